@@ -16,6 +16,8 @@ def c_tblock(b):
             acts.append("AAppend")
         elif a["a"] == "roll-append":
             acts.append("ARollAppend")
+        elif a["a"] == "roll":
+            acts.append("ARoll")
         else:
             acts.append("ATrunc %s" % cz(a["k"]))
     segs = c_list(["(%s, %s)" % (cz(x["len"]), coq_bool(x["sealed"])) for x in b["segs"]])
